@@ -34,12 +34,12 @@ def gen_docs(ctx, cfg, *, simulate=None, depth=70, max_n=None, workers=8, per_cl
 def generated_corpus(ctx, *, canonical=True, extended=True, kernels=True):
     quick = ctx.tier == "quick"
     recs = []
-    cap = 12000 if quick else 250000
+    cap = 12000 if quick else 80000
     if kernels and extended:
         for cfg in (["MC_Doc_ref2.cfg", "MC_Doc_ref3s.cfg", "MC_Doc_cw2.cfg", "MC_Doc_struct.cfg", "MC_Doc_switch.cfg"] if quick else
                     ["MC_Doc_ref3.cfg", "MC_Doc_cw3.cfg", "MC_Doc_struct.cfg", "MC_Doc_switch5.cfg"]):
             recs += gen_docs(ctx, cfg, max_n=cap)
-    nsim = 750 if quick else 15000       # per worker (4 workers)
+    nsim = 750 if quick else 6000       # per worker (4 workers)
     if extended:
         recs += gen_docs(ctx, "MC_Doc_sim_ext.cfg", simulate=nsim)
         recs += gen_docs(ctx, "MC_Doc_sim_extempty.cfg", simulate=nsim // 3)
@@ -124,7 +124,7 @@ def respelled(ctx, nsim):
 def check_c01(ctx):
     core.build_harness()
     recs = generated_corpus(ctx)
-    resp = respelled(ctx, 250 if ctx.tier == "quick" else 5000)
+    resp = respelled(ctx, 250 if ctx.tier == "quick" else 1500)
     ctx.extra["respelled_documents"] = len(resp)
     recs += resp
     pout, obs = record_docs(ctx, recs)
@@ -192,6 +192,12 @@ ALL_EXT = 3818
 def check_c06(ctx):
     core.build_harness()
     recs = generated_corpus(ctx) + defect_corpus(ctx) + plain_corpus(ctx, [(ALL_EXT, "bundled"), (0, "empty")] + ([] if ctx.tier == "quick" else [(ALL_EXT, "empty"), (2 | 64 | 2048, "bundled")]))
+    if ctx.tier != "quick" and len(recs) > 400000:
+        # the recorder keeps every record with its model and collector snapshots, the judge and the driver read them all:
+        # 1.2 M records cost 30 GB; the thorough tier replays a seeded sample of 400 000
+        import random
+        ctx.extra["records_before_sampling"] = len(recs)
+        recs = random.Random(ctx.seed).sample(recs, 400000)
     pin = os.path.join(ctx.work, "docs_in.ndjson")
     pout = os.path.join(ctx.work, "docs_obs.ndjson")
     core.write_ndjson(pin, recs)
@@ -213,10 +219,10 @@ def replay_c06(ctx, case):
 # ------------------------------------------------------------------------------------------ C07
 def defect_corpus(ctx):
     quick = ctx.tier == "quick"
-    cap = 12000 if quick else 250000
-    per = 500 if quick else 12000
+    cap = 12000 if quick else 80000
+    per = 500 if quick else 5000
     recs = gen_docs(ctx, "MC_Doc_defect.cfg", per_class=per) + gen_docs(ctx, "MC_Doc_defect_canon.cfg", per_class=per)
-    nsim = 750 if quick else 15000
+    nsim = 750 if quick else 6000
     recs += gen_docs(ctx, "MC_Doc_simdef_ext.cfg", simulate=nsim)
     recs += gen_docs(ctx, "MC_Doc_simdef_extempty.cfg", simulate=nsim // 3)
     recs += gen_docs(ctx, "MC_Doc_simdef_canon.cfg", simulate=nsim // 2)
